@@ -38,6 +38,8 @@ def atoms():
         # the literal as first operand
         ("lt", K, A), ("le", ("lit", -1), B), ("gt", M, ("neg", A)), ("ge", ("lit", 3), ("add", A, B)), ("ne", ("lit", 0), A), ("eq", K, B),
         ("inseq", B, (A, K)), ("inseq", A, ()), ("inseq", A, (("lit", 1), ("lit", 1), B)),
+        # computed items in a sequence (the columns they read are required columns, too), also as the tested value
+        ("inseq", C, (("add", A, ("lit", 1)), B, ("lit", 1))), ("inseq", A, (("neg", B),)), ("inseq", ("add", A, B), (("mul", C, ("lit", 2)), K)),
         ("inrange", A, 1, 6, 2), ("inrange", ("add", A, B), 0, 4, 1), ("inrange", A, 5, 0, -1), ("inrange", B, 6, -2, -3),
         ("inrange", A, 3, 3, 1), ("inrange", A, 2, 5, -1),
     ]
